@@ -74,6 +74,20 @@ def _impl(tier, seed, search):
             k = float(g.uniform(-2, 2))
             ok2, r = L.noraise('Revolute.S*k', lambda: ((S * k).exp().A, S.exp(k).A), dict(inp, k=k), 'exp(S*k) vs S.exp(k)')
             if ok2: L.close('exp(S*k)=S.exp(k)', r[0], r[1], TOL, max(1.0, geom.tmag(r[1])), dict(inp, k=k))
+            # multi-valued twists: scalar multiples and exp act value by value
+            def multi_scalar():
+                Sm = Twist3([S.S, (S * 0.5).S]) if hasattr(S, 'S') else None
+                out_ = []
+                for kk in (2, -1, 0.5, 3.0):
+                    Pm = Sm * kk
+                    out_.append(([np.asarray(x_, float) for x_ in Pm.data], [np.asarray((S * kk).S, float), np.asarray(((S * 0.5) * kk).S, float)]))
+                return out_
+            ok2, r = L.noraise('Twist3(multi)*k', multi_scalar, inp, 'multi-valued Twist3 * scalar')
+            if ok2:
+                for got_, want_ in r:
+                    L.check('Twist3(multi)*k:len', len(got_) == 2, inp, 'multi-valued Twist3 * scalar does not keep the number of values', sig='Twist3(multi)*k')
+                    if len(got_) == 2:
+                        for g_, w_ in zip(got_, want_): L.close('Twist3(multi)*k', g_, w_, TOL, max(1.0, float(np.max(np.abs(w_)))), inp, sig='Twist3(multi)*k')
             ok2, r = L.noraise('Revolute.exp(deg)', lambda: (S.exp(math.degrees(th), units='deg').A, S.exp(th).A), inp, 'S.exp(theta, units=deg)')
             if ok2: L.close('exp(deg)', r[0], r[1], TOL, max(1.0, geom.tmag(r[1])), inp)
             ths = [th, 0.0, -th / 2]
